@@ -5,6 +5,7 @@ package main
 // that String() output is given as text ("x:hex") where the model gives pieces.
 
 import (
+	"bytes"
 	"fmt"
 	"math"
 	"strings"
@@ -42,7 +43,48 @@ type Exec struct {
 	Pool    []interface{}
 	Early   []string // observation of each entry right after its creation
 	Opts    ExecOpts
+	Notes   []string // arguments found modified by the call they were passed to
 	scratch [][]byte
+	lent    [][2][]byte
+}
+
+func sameMap(a, b map[string]interface{}) (eq bool) {
+	defer func() {
+		if recover() != nil {
+			eq = true // values that cannot be compared: no claim
+		}
+	}()
+	if len(a) != len(b) {
+		return false
+	}
+	for k, v := range a {
+		w, ok := b[k]
+		if !ok {
+			return false
+		}
+		if f, isF := v.(float64); isF && f != f {
+			if g, isG := w.(float64); isG && g != g {
+				continue
+			}
+		}
+		if f, isF := v.(float32); isF && f != f {
+			if g, isG := w.(float32); isG && g != g {
+				continue
+			}
+		}
+		if v != w {
+			return false
+		}
+	}
+	return true
+}
+
+func copyMap(m map[string]interface{}) map[string]interface{} {
+	c := make(map[string]interface{}, len(m))
+	for k, v := range m {
+		c[k] = v
+	}
+	return c
 }
 
 func goInt(a Arg) interface{} {
@@ -157,6 +199,7 @@ func (e *Exec) lend(b []byte) []byte {
 	if e.Opts.Mutate {
 		e.scratch = append(e.scratch, c)
 	}
+	e.lent = append(e.lent, [2][]byte{b, c})
 	return c
 }
 
@@ -220,7 +263,15 @@ func (e *Exec) evalStep(s Step) (res interface{}) {
 		if !ok || !ok2 {
 			return skipped{}
 		}
-		r := it.FillVariables(m)
+		snap := copyMap(m)
+		r := func() (r interface{}) {
+			defer func() {
+				if !sameMap(m, snap) {
+					e.Notes = append(e.Notes, fmt.Sprintf("step %d: FillVariables modified the map it was given: %d keys before, %d after", len(e.Pool), len(snap), len(m)))
+				}
+			}()
+			return it.FillVariables(m)
+		}()
 		if e.Opts.Mutate {
 			for k := range m {
 				m[k] = "mutated_by_harness"
@@ -258,7 +309,15 @@ func (e *Exec) evalStep(s Step) (res interface{}) {
 		if !ok || !ok2 {
 			return skipped{}
 		}
-		r := m.FillVariables(fm)
+		snap := copyMap(fm)
+		r := func() (r interface{}) {
+			defer func() {
+				if !sameMap(fm, snap) {
+					e.Notes = append(e.Notes, fmt.Sprintf("step %d: FillVariables modified the map it was given: %d keys before, %d after", len(e.Pool), len(snap), len(fm)))
+				}
+			}()
+			return m.FillVariables(fm)
+		}()
 		if e.Opts.Mutate {
 			for k := range fm {
 				fm[k] = "mutated_by_harness"
@@ -433,6 +492,12 @@ func (e *Exec) observe(x interface{}) string {
 func (e *Exec) Run(steps []Step) []string {
 	for _, s := range steps {
 		r := e.evalStep(s)
+		for _, pr := range e.lent {
+			if !bytes.Equal(pr[0], pr[1]) {
+				e.Notes = append(e.Notes, fmt.Sprintf("step %d: a byte slice passed as an argument was modified by the call", len(e.Pool)))
+			}
+		}
+		e.lent = e.lent[:0]
 		e.Pool = append(e.Pool, r)
 		e.Early = append(e.Early, e.observe(r))
 		if e.Opts.Mutate {
